@@ -82,6 +82,7 @@ func (n *node5) desc() string {
 }
 
 type tree5 struct {
+	force int // if non-zero: the step code of the next derivation
 	nodes []*node5
 	x     *gen.Exec
 	g     *gen.G
@@ -125,7 +126,19 @@ func (t *tree5) derive(p *node5, r *rng.R) *node5 {
 		}
 		return c, ops
 	}
-	switch k := r.Intn(12); {
+	k0 := r.Intn(12)
+	if t.force != 0 {
+		k0, t.force = t.force, 0
+	}
+	switch k := k0; {
+	case k == 100:
+		n.step = "With.Timestamp"
+		n.hooks = append(n.hooks, -1)
+		n.l = p.l.With().Timestamp().Logger()
+	case k == 101:
+		n.step = "With.CallerFar"
+		n.hooks = append(n.hooks, -2)
+		n.l = p.l.With().CallerWithSkipFrameCount(100000).Logger()
 	case k < 4:
 		n.step = "With"
 		c, ops := withOps(1 + r.Intn(3))
@@ -206,6 +219,18 @@ func (t *tree5) derive(p *node5, r *rng.R) *node5 {
 		n.step = "With.Ctx"
 		n.goctx = fmt.Sprintf("ctx-n%d", n.id)
 		n.l = p.l.With().Ctx(context.WithValue(context.Background(), ck5{}, n.goctx)).Logger()
+	case k == 11 && r.Bool():
+		// the built-in hooks are added through the Context: -1 the timestamp hook (a "time" member), -2 a caller hook
+		// whose skip count lies beyond the stack (no member, but a slot in the hook list)
+		if r.Bool() {
+			n.step = "With.Timestamp"
+			n.hooks = append(n.hooks, -1)
+			n.l = p.l.With().Timestamp().Logger()
+		} else {
+			n.step = "With.CallerFar"
+			n.hooks = append(n.hooks, -2)
+			n.l = p.l.With().CallerWithSkipFrameCount(100000).Logger()
+		}
 	default:
 		n.step = "With.Stack"
 		n.stack = true
@@ -270,7 +295,13 @@ func (t *tree5) expectObs(n *node5, lvl zerolog.Level, shape int, evctx string, 
 		f = append(f, gen.KVI{Key: "errs", Val: gen.Arr(gen.Obj(gen.KVI{Key: "ctx", Val: own("errs", "0", "ctx")}))})
 	}
 	for _, h := range n.hooks {
-		f = append(f, gen.KVI{Key: fmt.Sprintf("h%d", h), Val: S(ctx)})
+		switch h {
+		case -1:
+			f = append(f, gen.KVI{Key: t.st.TimestampFieldName, Val: &gen.Intent{K: gen.ITime, T: t.st.Now}})
+		case -2:
+		default:
+			f = append(f, gen.KVI{Key: fmt.Sprintf("h%d", h), Val: S(ctx)})
+		}
 	}
 	f = append(f, gen.KVI{Key: "message", Val: S("m")})
 	return f
@@ -469,9 +500,31 @@ func c05tree(out *evid.Out, f *evid.Flags, ti int, concurrent bool) {
 		out.Count("events_checked", 1)
 	}
 	mode := ti % 3 // 0 create all then use; 1 depth-first interleaved; 2 re-log every ancestor after every derivation
+	// a directed branch in a quarter of the trees: two Hook steps, a built-in hook added through the Context, and then
+	// three siblings below that node which add different built-in hooks (hook lists with spare capacity, see C05)
+	var plan []int
+	planMid := -1
+	if ti%4 == 1 {
+		plan = []int{7, 8, 100, 101, 100, 101}
+		maxNodes += len(plan)
+	}
 	for len(t.nodes) < maxNodes {
 		// bias towards deep chains and towards branching from the same parent
 		var p *node5
+		if len(plan) > 0 && len(t.nodes) >= 3 {
+			t.force = plan[0]
+			plan = plan[1:]
+			p = t.nodes[len(t.nodes)-1]
+			if planMid >= 0 {
+				p = t.nodes[planMid]
+			} else if len(plan) == 3 {
+				planMid = len(t.nodes) // the node about to be derived (first built-in hook) is the siblings' parent
+			}
+			n := t.derive(p, r)
+			_ = n
+			out.Count("directed_builtin_hook_branches", 1)
+			continue
+		}
 		switch r.Intn(3) {
 		case 0:
 			p = t.nodes[len(t.nodes)-1]
